@@ -58,7 +58,7 @@ Lemma step2_inv : forall (r : req) (code : Z) url h2 au ap r',
         else (r_method r, r_body r, h3) in
       match copy h4 with
       | (RUnit, h5) =>
-          FRedirect (mkReq url m b h5 au ap (Some (maxred_of r - 1)%Z) (r_follow r) (r_ua r))
+          FRedirect (mkReq url m b h5 au ap (Some (maxred_of r - 1)%Z) (r_follow r) (r_ua r) (r_defmax r))
       | _ => FStuck
       end
   | _ => FRaise
